@@ -28,6 +28,7 @@ type Frame struct {
 	inSpec     bool      // evaluating a contract expression: no safety obligations
 	scopeAt    token.Pos // position for local-name lookup in loop invariants
 	boxed      map[*types.Var]bool
+	oldCur     *State                // current state while evaluating old(...): locals created after entry read from it
 	memo       map[*ast.CallExpr]Val // results of calls being re-run path by path (withFork)
 	pointees   []pointee
 	paramCells []*Cell
@@ -283,6 +284,11 @@ func (v *Verifier) evalIdent(fr *Frame, st *State, id *ast.Ident) Val {
 				_ = val
 				return v.eng.load(st, VarLoc{c})
 			}
+			if fr.oldCur != nil && st == fr.old {
+				if _, ok := fr.oldCur.vals[c]; ok {
+					return v.eng.load(fr.oldCur, VarLoc{c})
+				}
+			}
 			panic(unsupportedf(id.Pos(), "variable %s not live in this state", name))
 		}
 		// a parameter / local called "result" wins over the contract keyword
@@ -348,6 +354,11 @@ func (v *Verifier) objVal(fr *Frame, st *State, obj types.Object, pos token.Pos)
 	case *types.Var:
 		if c, ok := fr.vars[o]; ok {
 			if _, live := st.vals[c]; !live {
+				if fr.oldCur != nil && st == fr.old {
+					if _, ok := fr.oldCur.vals[c]; ok {
+						return v.eng.load(fr.oldCur, VarLoc{c})
+					}
+				}
 				panic(unsupportedf(pos, "variable %s not live in this state (old() of a local?)", o.Name()))
 			}
 			return v.eng.load(st, VarLoc{c})
